@@ -126,7 +126,7 @@ def check(case, vals=None):
                     try:
                         le = x._lowered_expr
                         inner = le.operands[0] if type(le).__name__ == "RootAlias" else le
-                        if type(inner).__name__ == "Rechunk" and type(le).__name__ == "RootAlias":
+                        if "Rechunk" in type(inner).__name__ and type(le).__name__ == "RootAlias":
                             labs.append("bridge-rechunk-under-rootalias")
                         if type(le).__name__ == "RootAlias":
                             labs.append("rootalias")
